@@ -16,7 +16,8 @@ def _visit_expr_id(ix, rep):
     rep.analysed(f)
     rep.unit(f.module.rel)
     chain = None
-    for st in f.node.body:
+    from sa import norm as _norm
+    for st in _norm.guards_to_chain(f.node).body:        # guard clauses with early returns are the same chain
         if isinstance(st, ast.If):
             chain = st
             break
@@ -77,6 +78,17 @@ def _whole_identifier_names(f):
                 v = ast.unparse(st.value).replace(' ', '')
                 if v.endswith('.Identifier().getText()') or (isinstance(st.value, ast.Name) and st.value.id in out):
                     out.add(st.targets[0].id)
+                # `'out' if <no head> else <head>.getText()`: a literal or the whole text, through a local holding the terminal node
+                if isinstance(st.value, ast.IfExp):
+                    arms = [st.value.body, st.value.orelse]
+                    if all(isinstance(a_, ast.Constant) or (isinstance(a_, ast.Call) and isinstance(a_.func, ast.Attribute) and a_.func.attr == 'getText' and not a_.args) for a_ in arms) \
+                            and any(isinstance(a_, ast.Call) for a_ in arms):
+                        recv = [a_.func.value for a_ in arms if isinstance(a_, ast.Call)][0]
+                        rtxt = ast.unparse(recv).replace(' ', '')
+                        if rtxt.endswith('.Identifier()') or (isinstance(recv, ast.Name) and any(isinstance(q, ast.Assign) and len(q.targets) == 1 and isinstance(q.targets[0], ast.Name)
+                                                                                                   and q.targets[0].id == recv.id and ast.unparse(q.value).replace(' ', '').endswith('.Identifier()')
+                                                                                                   for q in ast.walk(f.node))):
+                            out.add(st.targets[0].id)
     return out
 
 
